@@ -408,6 +408,44 @@ fn check_vault(cw20: bool, liquidity: bool, cx: &mut Cx, cases: &mut Vec<Value>)
             }
         }
     }
+    // partial updates: the vault's UpdateConfig takes each switch as an Option; an update that names one
+    // switch (or none, e.g. a fee change) must leave the other switches exactly as they were
+    let read = |w: &World| -> (bool, bool, bool) {
+        let c: white_whale_std::vault_network::vault::Config = w.query(&h.vault, &white_whale_std::vault_network::vault::QueryMsg::Config {}).unwrap();
+        (c.flash_loan_enabled, c.deposit_enabled, c.withdraw_enabled)
+    };
+    for t in toggles_all() {
+        w.restore(&base);
+        set_vault_toggles(&mut w, &h, t).expect("vault toggles");
+        let toggled = w.snapshot();
+        for which in 0..4usize {
+            for val in [true, false] {
+                if which == 3 && !val {
+                    continue;
+                }
+                w.restore(&toggled);
+                let params = white_whale_std::vault_network::vault::UpdateConfigParams {
+                    flash_loan_enabled: if which == 0 { Some(val) } else { None },
+                    deposit_enabled: if which == 1 { Some(val) } else { None },
+                    withdraw_enabled: if which == 2 { Some(val) } else { None },
+                    new_owner: None,
+                    new_vault_fees: if which == 3 { Some(Fee3::new(ONE18 / 100, 0, 0).vault()) } else { None },
+                    new_fee_collector_addr: None,
+                };
+                w.exec(OWNER, &h.factory, &white_whale_std::vault_network::vault_factory::ExecuteMsg::UpdateVaultConfig { vault_addr: h.vault.clone(), params }, &[]).expect("partial update");
+                let mut want = t;
+                match which {
+                    0 => want.0 = val,
+                    1 => want.1 = val,
+                    2 => want.2 = val,
+                    _ => {}
+                }
+                cx.count("case:partial_update");
+                cases.push(json!({"vault_cw20": cw20, "toggles(loan,deposit,withdraw)": [t.0, t.1, t.2], "partial_update_of": (["flash_loan", "deposit", "withdraw", "fees only"])[which], "value": val}));
+                cx.check("partial_update.changes_exactly_the_named_switch", read(&w) == want, || format!("vault toggles {:?}: update naming only switch #{} = {} left the switches at {:?}, expected {:?}", t, which, val, read(&w), want));
+            }
+        }
+    }
     w.restore(&base);
     let d0 = w.dump(&h.vault);
     set_vault_toggles(&mut w, &h, (false, false, false)).unwrap();
